@@ -162,22 +162,22 @@ def render (r : RenderReq) : Outcome :=
       let cfg : ECfg := { tc := tc, tab := r.tab, pyBuiltins := r.pyBuiltins, talesExc := r.talesExc,
                           existsExc := r.existsExc, excParents := r.excParents, booleanAttrs := booleans,
                           strict := r.strict, src := body }
-      let init : RState := { streams := [[]], own := r.vars ++ [(lit "repeat", .repeatDict), (lit "target_language", .none)],
-                             root := [], rcontext := [], repeats := [], frames := [{}], log := #[], tlog := #[],
-                             errors := [], handled := 0 }
+      let env0 : Env := { own := r.vars ++ [(lit "repeat", .repeatDict), (lit "target_language", .none)],
+                          root := [], rcontext := [], repeats := [], frames := [{}] }
+      let init : RState := { streams := [[]], env := env0, x := {}, handled := 0 }
       match eval cfg [] fuel node init with
-      | .ok () s => .out (s.streams.getLast?.getD []) s.log s.tlog s.handled
+      | .ok () s => .out (s.streams.getLast?.getD []) s.x.log s.x.tlog s.handled
       | .unsupported w => .unsupported w
       | .raised ex s =>
         -- the render function's handler records tokens[__token]
         -- `create_formatted_exception` cannot mix RenderError into `Exception` itself (MRO conflict):
         -- such an exception comes out without the formatter, i.e. without records (finding D-12c)
         let errs : List ErrorOut := if ex.cls == "Exception" || ex.cls == "BaseException" then [] else
-          match (topFrame s).token with
+          match s.x.token with
           | some (pos, len) =>
             let (l, c) := Tok.location body { str := [], pos := pos }
             [{ text := (body.drop pos).take len, line := l, col := c }]
           | none => []
-        .raised ex errs s.log s.tlog
+        .raised ex errs s.x.log s.x.tlog
 
 end ChamVerif
